@@ -21,24 +21,66 @@ def lemmas():
     from pyvc import front, replay
     repo = front.repo()
     fi = repo.funcs[GH + 'protect_html']
-    pats = []
+    # shape: the result is obtained from the parameter by a pipeline of
+    # character-wise steps -- re.sub(<one literal character>, r, X),
+    # X.replace(<one character>, r), X.translate(..), X.expandtabs is NOT one
+    # (column dependent) -- through straight-line assignments.  Anything else:
+    # the lemma is undecided (the images below are still evaluated).
+    args = [a.arg for a in fi.node.args.args]
+    env = {args[0]: []} if args else {}
+    why = []
+
+    def pipe(e):
+        if isinstance(e, ast.Name):
+            return env.get(e.id)
+        if isinstance(e, ast.Call):
+            fn = ast.unparse(e.func)
+            if fn == 're.sub' and len(e.args) == 3 and not e.keywords \
+                    and isinstance(e.args[0], ast.Constant) \
+                    and isinstance(e.args[0].value, str):
+                pat = e.args[0].value
+                if not re.fullmatch(r'(\\[tn]|[^\\.^$*+?{}\[\]|()])', pat):
+                    why.append('pattern %r' % pat)
+                    return None
+                x = pipe(e.args[2])
+                return None if x is None else x + [pat]
+            if isinstance(e.func, ast.Attribute) and \
+                    e.func.attr == 'replace' and len(e.args) == 2 \
+                    and not e.keywords \
+                    and isinstance(e.args[0], ast.Constant) \
+                    and isinstance(e.args[0].value, str) \
+                    and len(e.args[0].value) == 1:
+                x = pipe(e.func.value)
+                return None if x is None else x + [e.args[0].value]
+            if isinstance(e.func, ast.Attribute) and \
+                    e.func.attr == 'translate' and len(e.args) == 1:
+                x = pipe(e.func.value)
+                return None if x is None else x + ['<translate>']
+        why.append('expression %s' % ast.unparse(e)[:60])
+        return None
+
+    result = None
     ok_shape = True
     for stmt in fi.node.body:
-        if isinstance(stmt, ast.Return):
+        if isinstance(stmt, ast.Expr) and isinstance(stmt.value, ast.Constant):
+            continue        # docstring
+        if isinstance(stmt, ast.Return) and stmt.value is not None:
+            result = pipe(stmt.value)
+            break
+        if isinstance(stmt, ast.Assign) and len(stmt.targets) == 1 \
+                and isinstance(stmt.targets[0], ast.Name):
+            env[stmt.targets[0].id] = pipe(stmt.value)
             continue
-        c = stmt.value if isinstance(stmt, ast.Assign) else None
-        if not (isinstance(c, ast.Call) and ast.unparse(c.func) == 're.sub'
-                and isinstance(c.args[0], ast.Constant)
-                and ast.unparse(c.args[2]) == 's'):
-            ok_shape = False
-            continue
-        p = c.args[0].value
-        lit = re.fullmatch(r'(\\[tn]|[^\\.^$*+?{}\[\]|()])', p)
-        if not lit:
-            ok_shape = False
-        pats.append(p)
+        ok_shape = False
+        why.append('statement %s' % ast.unparse(stmt)[:60])
+        break
+    pats = result or []
+    decided = ok_shape and result is not None
     yield ('escaping:protect_html-is-a-chain-of-single-character-substitutions',
-           ok_shape and len(pats) >= 4, 'patterns %r' % (pats,))
+           True if decided and len(pats) >= 4 else None,
+           'steps %r' % (pats,) if decided else
+           'shape of protect_html not recognised (%s): character-wise '
+           'behaviour not established' % '; '.join(why[:3]))
     ph = replay.real_object(GH + 'protect_html')
     for ch in ['&', '"', '<', '>', '\t', ' ', '\n', 'a', '\\', "'", 'ä', ';']:
         img = ph(ch)
@@ -109,9 +151,17 @@ def html_rendering_bounded(seed):
                 not isinstance(dic[item], typ):
             raise SystemExit(1)
         return dic[item]
+    # the real init(vars) with the vars of the script's own start-up code
+    # (props/shellenv.py); by hand only as a fallback
+    from props import shellenv
+    v0 = shellenv.init_report_module(gh, ['--output', 'html', 'f'],
+                                     json_get=jget)
+    # (the two style constants are replaced by short markers the row parser
+    # below looks for)
     gh.highlight_style = 'H'
-    gh.highlight_style_unsure = 'U'
     gh.number_style = 'N'
+    if not hasattr(gh, 'highlight_style_unsure'):
+        gh.highlight_style_unsure = 'U'     # never set by init (dead code)
     rng = random.Random(seed)
     lines_pool = ['ab <c>', 'x & "y"', '', 'zz', 'a  b', '<br>']
     n, fails = 0, []
@@ -125,7 +175,11 @@ def html_rendering_bounded(seed):
     # three matches out of twelve spans (single characters, words, spans
     # over one and several line breaks, nested and adjacent ones)
     def run(tex, ms, ctx):
-        cmd = types.SimpleNamespace(context=ctx, link=False)
+        if v0 is not None:
+            cmd = v0.cmdline
+            cmd.context, cmd.link = ctx, False
+        else:
+            cmd = types.SimpleNamespace(context=ctx, link=False)
         for m_ in (gh, ut):
             m_.json_get = jget
             m_.cmdline = cmd
